@@ -342,17 +342,21 @@ class RTDCBase(abc.ABC):
         Notes
         -----
         If the scale is not "linear", then a new array is returned.
+        The returned array always has the dtype float64.
         All warnings are suppressed when computing `np.log(a)`, as
         `a` may have negative or nan values.
         """
+        # Always work in double precision: integer arithmetic wraps
+        # around (e.g. differences of uint8 data), and np.log returns
+        # float16/float32 for 8/16-bit integer data. For float64 input,
+        # no copy is made.
+        a = np.asarray(a, dtype=np.float64)
         if scale == "linear":
             b = a
         elif scale == "log":
             with warnings.catch_warnings(record=True) as w:
                 warnings.simplefilter("always")
-                # Compute the logarithm in double precision: for small
-                # integer dtypes, np.log would return float16 or float32.
-                b = np.log(np.asarray(a, dtype=np.float64))
+                b = np.log(a)
                 if len(w):
                     # Tell the user that the log-transformation issued
                     # a warning.
